@@ -1,5 +1,6 @@
 (* C06 placeholder *)
 From GV Require Import Prelude.Base Model.Registry.
+From GVgen Require Import C06Cfg.
 Theorem C06_placeholder : forall alive d k v d', insert_once alive d k v = Some d' -> dget d k = None \/ exists e, dget d k = Some e /\ alive e = false.
 Proof. intros alive d k v d'. unfold insert_once. destruct (dget d k) as [e|]; [|auto]. destruct (alive e) eqn:A; [discriminate|]. intros _. right. exists e. auto. Qed.
 Print Assumptions C06_placeholder.
